@@ -1068,3 +1068,16 @@ add("C13", "benign: synthesised :: emitted through a local alias of the suffix l
 add("C13", "benign: bit-string fallback re-assigns nothing but emits on disjoint paths", "sqlglot/tokenizer_core.py",
     "            int(value, 2)\n            self._add(TokenType.BIT_STRING, value[2:])  # Drop the 0b\n        except ValueError:\n            self._add(TokenType.IDENTIFIER)\n",
     "            bits = int(value, 2)\n        except ValueError:\n            bits = -1\n        if bits >= 0:\n            self._add(TokenType.BIT_STRING, value[2:])  # Drop the 0b\n        else:\n            self._add(TokenType.IDENTIFIER)\n", "silent")
+
+# ------------------------------------------------------------------------------- C20.i
+_C20I_OLD = ("    copy = (\n        len(source_nodes) != len(source_ids)\n        or len(target_nodes) != len(target_ids)\n        or source_ids & target_ids\n    )\n")
+add("C20", "merged private-copy condition counts the target's id set for its node sequence", DIFF, _C20I_OLD,
+    "    copy = len(source_ids | target_ids) != len(source_nodes) + len(target_ids)\n", "C20.i")
+add("C20", "private-copy condition forgets nodes shared between the two inputs", DIFF, _C20I_OLD,
+    "    copy = len(source_nodes) != len(source_ids) or len(target_nodes) != len(target_ids)\n", "C20.i")
+add("C20", "private-copy condition looks at the source only", DIFF, _C20I_OLD,
+    "    copy = len(source_nodes) != len(source_ids) or bool(source_ids & target_ids)\n", "C20.i")
+add("C20", "benign: merged private-copy condition counting every node object once", DIFF, _C20I_OLD,
+    "    copy = len(source_ids | target_ids) != len(source_nodes) + len(target_nodes)\n", "silent", 0)
+add("C20", "benign: private-copy condition through helper locals and isdisjoint", DIFF, _C20I_OLD,
+    "    duplicated = len(target_nodes) != len(target_ids) or len(source_ids) != len(source_nodes)\n    copy = duplicated or not source_ids.isdisjoint(target_ids)\n", "silent", 0)
